@@ -1214,6 +1214,28 @@ fn run_term(cx: &mut Ctx, events: &[(u64, ModelEvent)], from: u64, to: u64, comp
                 cx.violation(me, *idx, "C13:term:reentrant:inner-message-missing", format!("terminal output {:?} does not contain the message {:?} of the event emitted while rendering", clip(body), m));
             }
         }
+        // an `err` captured as an error: every message of its source chain, outermost first
+        if let Some(p) = me.first("err") {
+            if let (M::Error(e), Cap::Error, false) = (&p.model, p.cap, p.buffered) {
+                cx.r.observe("term:error-chains", 1);
+                let msgs = e.messages();
+                cx.r.observe(&format!("term:error-chain-length:{}", msgs.len()), 1);
+                let mut at = 0usize;
+                for (k, m) in msgs.iter().enumerate() {
+                    match body[at..].find(m.as_str()) {
+                        Some(pos) => at += pos + m.len(),
+                        None => {
+                            cx.violation(me, *idx, &format!("C13:term:error-chain:{}", if k == 0 { "outermost-missing" } else { "source-missing" }), format!("terminal output {:?} does not show message {} of the error chain {:?} (in order, outermost first)", clip(body), k, msgs));
+                            break;
+                        }
+                    }
+                }
+            }
+        }
+        let hostile = me.parts.iter().any(|(hole, k)| *hole && me.first(k).and_then(|p| p.plain_text()).map_or(false, |t| t.chars().any(|c| !(c.is_ascii_alphanumeric() || c == ' ' || c == '-'))));
+        if hostile {
+            cx.r.observe("term:messages-with-hostile-hole-text", 1);
+        }
         let msg = me.msg_text();
         if !body.contains(&msg) {
             cx.violation(me, *idx, "C13:term:message-missing", format!("terminal output {:?} does not contain the rendered message {:?}", clip(body), msg));
